@@ -37,7 +37,9 @@ MutLines(S) ==
           {[kind |-> "mut", enc |-> "rfc", toks |-> m, xtoks |-> << >>] : m \in JMutants(EncJ(TRUE, sn, t))}
           \cup {[kind |-> "mut", enc |-> "json", toks |-> m, xtoks |-> << >>] : m \in JMutants(EncJ(FALSE, sn, t))}
           \cup {[kind |-> "mut", enc |-> "xml", toks |-> << >>, xtoks |-> m] : m \in XMutants(EncX(sn, t))}
-          : t \in FullTrees(S)})
+          : t \in FullTrees(S)}
+          \cup (IF FullTrees(S) = {} THEN {}
+                ELSE {[kind |-> "mut", enc |-> "xml", toks |-> << >>, xtoks |-> m] : m \in XNsMutants(EncX(sn, BigTree(S)))}))
 FuzzLines ==
   <<SchemaLine(FuzzItems), [kind |-> "jalpha", toks |-> JAlphabet], [kind |-> "xalpha", xtoks |-> XAlphabet]>>
   \o [i \in 1..Len(JContexts) |-> [kind |-> "jctx", pre |-> JContexts[i].pre, suf |-> JContexts[i].suf]]
